@@ -257,7 +257,7 @@ Section TallyQ.
     intros s x H. unfold tregister, tnext.
     cbn [isnan NumQ F zero ofZ add sub mul div eqb].
     destruct (Qeq_bool (inject_Z (tn s + 1)) 0) eqn:E; [| reflexivity].
-    apply Qeq_bool_iff in E. change 0 with (inject_Z 0) in E. apply inject_Z_injective in E. lia.
+    apply Qeq_bool_iff in E. unfold Qeq in E. cbn [inject_Z Qnum Qden] in E. lia.
   Qed.
 
   (* ---------- the accumulator invariant ---------- *)
